@@ -17,11 +17,11 @@ from lib import vf
 
 CFG = """SPECIFICATION %(spec)s
 CONSTANTS
-  Items <- MCItems
-  WFItems <- MCWFItems
-  Addrs <- MCAddrs
+  Items <- %(itemset)s
+  WFItems <- %(wfset)s
+  Addrs <- %(addrset)s
   Zoned <- MCZoned
-  Member <- MCMember
+  Member <- MCMemberAll
   Schemes <- %(schemes)s
   KnownSchemes <- MCKnown
   Creds <- %(creds)s
@@ -39,9 +39,13 @@ INV = ("INVARIANTS TypeOK GateSafe DeniedUntouched ForwardedOnce OutcomeSound No
 ACTIONS = ["ChooseRules", "ChooseReq", "Lookup", "AccessPass", "AccessDeny", "AuthPass", "AuthDeny", "Forward"]
 
 
-def cfg(spec, items, xff, auth=True, protos="MCBoth", inv=False, chain=None):
+def cfg(spec, items, xff, auth=True, protos="MCBoth", inv=False, chain=None, nest=False):
     pres, sufs, fills = chain or ("MCPresNone", "MCSufsNone", "MCFillsOne")
+    if nest:
+        fills = "MCFillsNest"
     return CFG % dict(spec=spec, items=items, xff=xff, protos=protos, pres=pres, sufs=sufs, fills=fills,
+                      itemset="MCItemsNest" if nest else "MCItems", wfset="MCWFItemsNest" if nest else "MCWFItems",
+                      addrset="MCAddrsNest" if nest else "MCAddrs",
                       schemes="MCSchemes" if auth else "MCNoAuthSchemes",
                       creds="MCCreds" if auth else "MCNoAuthCreds", inv=INV if inv else "")
 
@@ -53,6 +57,7 @@ CONSTANTS
   Valid <- MCValid
   SameConcat <- MCSameConcat
   FirstVersion = "v1"
+  MTimes <- %(mtimes)s
   MaxAttempts = %(attempts)d
   MaxReloads = %(reloads)d
   Memo = "%(memo)s"
@@ -61,8 +66,8 @@ CHECK_DEADLOCK FALSE
 """
 
 
-def hist_cfg(spec, creds, attempts, reloads, memo="none", inv=False):
-    return HIST_CFG % dict(spec=spec, creds=creds, attempts=attempts, reloads=reloads, memo=memo,
+def hist_cfg(spec, creds, attempts, reloads, memo="none", inv=False, mtimes="MCMTimesAll"):
+    return HIST_CFG % dict(spec=spec, creds=creds, attempts=attempts, reloads=reloads, memo=memo, mtimes=mtimes,
                            inv="INVARIANTS HistoryIndependent UpstreamOnlyWhenAccepted" if inv else "")
 
 
@@ -70,6 +75,8 @@ CHAIN_Q = ("MCPresLong", "MCSufsShort", "MCFillsSome")
 CHAIN_T = ("MCPresLong", "MCSufsLong", "MCFillsAll")
 
 SUBS = {
+    "multihttp": ("proxy", ["proxy/c12_test.go", "proxy/c12_multi_test.go"], "^TestVerifC12MultiHTTP$", False),
+    "multitcp": ("proxy/tcp", ["proxy/tcp/c12_test.go", "proxy/tcp/c12_multi_test.go"], "^TestVerifC12MultiTCP$", False),
     "authhist": ("proxy", ["proxy/c12_hist_test.go"], "^TestVerifC12AuthHist$", False),
     "route": ("route", ["route/c12_test.go"], "^TestVerifC12Route$", False),
     "http": ("proxy", ["proxy/c12_test.go"], "^TestVerifC12HTTP$", False),
@@ -89,8 +96,8 @@ def run_sub(ctx, sub, cases, what, timeout=600):
     return r
 
 
-def mc(ctx, what, items, xff, auth, timeout, coverage=False, chain=None, protos="MCBoth"):
-    r = ctx.tlc("Access_MC", cfg_text=cfg("Spec", items, xff, auth=auth, inv=True, chain=chain, protos=protos), workers=8,
+def mc(ctx, what, items, xff, auth, timeout, coverage=False, chain=None, protos="MCBoth", nest=False):
+    r = ctx.tlc("Access_MC", cfg_text=cfg("Spec", items, xff, auth=auth, inv=True, chain=chain, protos=protos, nest=nest), workers=8,
                 timeout=timeout, coverage=coverage)
     ctx.log("MC %s (<=%d items, XFF<=%d, auth=%s): %d generated, %d distinct, %.0fs" % (what, items, xff, auth, r.generated, r.distinct, r.wall))
     if not ctx.need_tlc_ok(r, "Access MC " + what):
@@ -104,8 +111,8 @@ def mc(ctx, what, items, xff, auth, timeout, coverage=False, chain=None, protos=
     return True
 
 
-def gen(ctx, what, sink, items, xff, auth, protos="MCBoth", timeout=600, chain=None):
-    r = ctx.tlc("Access_MC", cfg_text=cfg("GenSpec", items, xff, auth=auth, protos=protos, chain=chain), workers=8,
+def gen(ctx, what, sink, items, xff, auth, protos="MCBoth", timeout=600, chain=None, nest=False):
+    r = ctx.tlc("Access_MC", cfg_text=cfg("GenSpec", items, xff, auth=auth, protos=protos, chain=chain, nest=nest), workers=8,
                 json_sink=sink, timeout=timeout)
     ctx.log("Gen %s (<=%d items, XFF<=%d, auth=%s): %d transitions, %.0fs" % (what, items, xff, auth, r.generated, r.wall))
     if not ctx.need_tlc_ok(r, "Access Gen " + what):
@@ -116,7 +123,7 @@ def gen(ctx, what, sink, items, xff, auth, protos="MCBoth", timeout=600, chain=N
 
 def clean_rules(line):
     c = json.loads(line)
-    ok = lambda xs: all(x in ("A", "B", "C") for x in xs)
+    ok = lambda xs: all(x in ("A", "B", "C", "An", "Ah", "Cn") for x in xs)
     return ok(c["allow"]) and ok(c["deny"]) and not (c["allow"] and c["deny"])
 
 
@@ -145,10 +152,11 @@ def sample(ctx, src, dst, keep, proto=None, always=None, pred=None):
 def run(ctx):
     ctx.level = "model_checking"
     ctx.assumptions += [
-        "universe: rule items {A=v4 /8, B=v4 host, C=v6 /10, ip:<v4>/33, ip:notanip, item without type, unknown type}, lists of <=%d items as allow / deny / both; peers and X-Forwarded-For elements {in A, in B, v4 outside, in C, v6 outside, zone-scoped v6 in C}, chains of <=2 judged elements surrounded by {0,1,2,15,16,17,40,200} filler hops in front and {0,1,20} behind, on one or several header lines; schemes {none, basic (configured), unconfigured name}; credentials {none, good, bad, malformed header}" % ctx.pick(2, 3),
+        "universe: rule items {A=v4 /8, B=v4 host, C=v6 /10, nested: An=narrower block inside A with A's network address, Ah=that address as host, Cn=narrower block inside C, ip:<v4>/33, ip:notanip, item without type, unknown type}, lists of <=%d items as allow / deny / both; peers and X-Forwarded-For elements {in A, in B, v4 outside, in C, v6 outside, zone-scoped v6 in C}, chains of <=2 judged elements surrounded by {0,1,2,15,16,17,40,200} filler hops in front and {0,1,20} behind, on one or several header lines; schemes {none, basic (configured), unconfigured name}; credentials {none, good, bad, malformed header}" % ctx.pick(2, 3),
         "for an undocumented configuration (unparsable item, allow and deny together) and for zone-scoped addresses the specification fixes only the upper bound (never admit what the well-formed part / the address part would not admit); denying more is permitted there",
         "the unparsable items name blocks containing no address of the universe, so a more lenient parser would be judged the same",
-        "authentication histories: <=3 login attempts over {good, changed password, wrong password, shifted user/password split, empty user, empty password, other user, crossed, none, malformed} with <=1 htpasswd reload (3 contents) on a fresh scheme instance per history; the verdict must follow from the attempt and the content in force",
+        "authentication histories: <=3 login attempts over {good, changed password, wrong password, shifted user/password split, empty user, empty password, other user, crossed, none, malformed} with <=1 replacement of the htpasswd file (3 contents; modification time newer, older or equal to the loaded one - equal leaves either content permitted; a refresh missing after 250 intervals = 5 s counts as not applied) on a fresh scheme instance per history; the verdict must follow from the attempt and the content in force",
+        "routes with two targets carrying their own rules (none / allow or deny of one block each) and instances up or down, 4 requests each so that the round-robin picker uses both: a request may reach only an instance whose own target's rules admit it; failing or trying another (checked) target after a failed connect are both permitted",
         "when access and authentication both fail, 403 and 401 are both accepted (the statement fixes no order)",
         "end to end runs use loopback sources (127.0.0.0/8, ::1 and, when the host has one, a link-local address for the zone-scoped peer); the IPv6-outside peer exists only at decision level and as an X-Forwarded-For element",
     ]
@@ -165,6 +173,17 @@ def run(ctx):
             return
         if not mc(ctx, "gate-lists", 2, 1, False, 200):
             return
+    # nested / overlapping blocks (narrow inside wide with the same network address, a host and its network), both orders
+    if not mc(ctx, "nested-blocks", ctx.pick(2, 3), 1, False, ctx.pick(200, 900), nest=True):
+        return
+    # routes with several targets carrying different rules: served only by a target whose own rules admit
+    mm = ctx.tlc("AccessMulti_MC", cfg_text=cfg("MSpec", 1, 1, auth=False).replace("Items <- MCItems", "Items <- MCWFItems")
+                 .replace("CHECK_DEADLOCK FALSE", "INVARIANTS ServedByAdmittingTarget UntouchedUnlessServed MOutcomeSound\nCHECK_DEADLOCK FALSE"),
+                 workers=8, timeout=600)
+    ctx.log("MC multi-target routes: %d generated, %d distinct, %.0fs" % (mm.generated, mm.distinct, mm.wall))
+    if not ctx.need_tlc_ok(mm, "AccessMulti MC"):
+        return
+    ctx.cover("mc-multi", states=mm.distinct, transitions=mm.generated)
     # long X-Forwarded-For chains: fillers around the judged elements, lengths at boundary values
     if not mc(ctx, "chains", ctx.pick(1, 2), 1, False, ctx.pick(200, 900), chain=ctx.pick(CHAIN_Q, CHAIN_T), protos="MCHttp"):
         return
@@ -191,6 +210,9 @@ def run(ctx):
     if not gen(ctx, "gate", gate, ctx.pick(1, 2), 1, True, protos="MCHttp"):
         return
 
+    nestc = os.path.join(ctx.tmp, "c12.nest.cases")
+    if not gen(ctx, "nested-blocks", nestc, ctx.pick(2, 3), ctx.pick(1, 2), False, nest=True):
+        return
     chainc = os.path.join(ctx.tmp, "c12.chain.cases")
     if not gen(ctx, "chains", chainc, ctx.pick(1, 2), 1, False, protos="MCHttp", chain=ctx.pick(CHAIN_Q, CHAIN_T)):
         return
@@ -210,6 +232,7 @@ def run(ctx):
     sample(ctx, acc, allc, 1.0)
     sample(ctx, gate, allc, 1.0)
     sample(ctx, chainc, allc, ctx.pick(1.0, 0.10), always=clean_rules)
+    sample(ctx, nestc, allc, 1.0)
     r = run_sub(ctx, "route", allc, "C12 decisions")
     if r is None:
         return
@@ -226,6 +249,7 @@ def run(ctx):
     n1 = sample(ctx, gate, httpc, ctx.pick(0.5, 1.0), proto="http")
     n2 = sample(ctx, acc, httpc, ctx.pick(0.08, 0.06), proto="http", always=clean_rules)
     n2 += sample(ctx, chainc, httpc, ctx.pick(0.10, 0.03), proto="http")
+    n2 += sample(ctx, nestc, httpc, ctx.pick(0.5, 0.15), proto="http")
     r = run_sub(ctx, "http", httpc, "C12 end to end HTTP", timeout=ctx.pick(300, 800))
     if r is None:
         return
@@ -241,6 +265,7 @@ def run(ctx):
     # 5. replay: end to end TCP (every TCP case, three proxy kinds)
     tcpc = os.path.join(ctx.tmp, "c12.tcp.cases")
     sample(ctx, acc, tcpc, 1.0, proto="tcp")
+    sample(ctx, nestc, tcpc, 1.0, proto="tcp")
     r = run_sub(ctx, "tcp", tcpc, "C12 end to end TCP", timeout=ctx.pick(300, 800))
     if r is None:
         return
@@ -256,7 +281,7 @@ def run(ctx):
     # 6. replay: authentication histories end to end (every history without reload; with a reload: those of full length)
     hall = os.path.join(ctx.tmp, "c12.hist.all")
     sample(ctx, histc, hall, 1.0)
-    nrel = sample(ctx, histr, hall, ctx.pick(0.35, 0.2), always=None, pred=lambda l: '"reload"' in l and l.count('"attempt"') == 3)
+    nrel = sample(ctx, histr, hall, ctx.pick(0.12, 0.08), always=None, pred=lambda l: '"reload"' in l and l.count('"attempt"') == 3)
     r = run_sub(ctx, "authhist", hall, "C12 authentication histories", timeout=ctx.pick(300, 800))
     if r is None:
         return
@@ -268,6 +293,38 @@ def run(ctx):
     ctx.cover("authhist", traces_validated_against_impl=s["ran"], evaluations=s["attempts"], distinct_nontrivial=s["distinct_nontrivial"],
               samples=s.get("samples") or [])
     ctx.take_failures(r, "authhist")
+
+    # 7. routes with several targets carrying different rules, instances up / down
+    multic = os.path.join(ctx.tmp, "c12.multi.cases")
+    mbase = cfg("MGenSpec", 1, 1, auth=False).replace("Items <- MCItems", "Items <- MCWFItems")
+    mg = ctx.tlc("AccessMulti_MC", cfg_text=mbase, workers=8, json_sink=multic, timeout=600)
+    if not ctx.need_tlc_ok(mg, "AccessMulti Gen"):
+        return
+    ctx.cover("gen-multi", transitions=mg.generated)
+    mh = os.path.join(ctx.tmp, "c12.multi.http")
+    sample(ctx, multic, mh, ctx.pick(0.3, 1.0), proto="http")
+    r = run_sub(ctx, "multihttp", mh, "C12 multi-target HTTP", timeout=ctx.pick(300, 800))
+    if r is None:
+        return
+    s = r.summary
+    ctx.log("multi-target routes over HTTP: %d cases run with %d requests over %d routes: %d / %d served by instance 1 / 2, %d denied, %d failed (instance down), %d failed checks, %.0fs"
+            % (s["ran"], s["requests"], s["routes"], s["served1"], s["served2"], s["denied"], s["failed"], s["fails"], r.wall))
+    if min(s["served1"], s["served2"], s["denied"], s["failed"]) == 0:
+        ctx.inconclusive("multi-target HTTP run is vacuous: %s" % json.dumps(s)[:400])
+    ctx.cover("multihttp", traces_validated_against_impl=s["ran"], evaluations=s["requests"], distinct_nontrivial=s["distinct_nontrivial"], samples=s.get("samples") or [])
+    ctx.take_failures(r, "multihttp")
+    mt = os.path.join(ctx.tmp, "c12.multi.tcp")
+    sample(ctx, multic, mt, ctx.pick(0.5, 1.0), proto="tcp")
+    r = run_sub(ctx, "multitcp", mt, "C12 multi-target TCP", timeout=ctx.pick(300, 800))
+    if r is None:
+        return
+    s = r.summary
+    ctx.log("multi-target routes over TCP: %d cases run with %d connections: %d / %d reached instance 1 / 2, %d closed without reaching one, %d failed checks, %.0fs"
+            % (s["ran"], s["connections"], s["served1"], s["served2"], s["closed"], s["fails"], r.wall))
+    if min(s["served1"], s["served2"], s["closed"]) == 0:
+        ctx.inconclusive("multi-target TCP run is vacuous: %s" % json.dumps(s)[:400])
+    ctx.cover("multitcp", traces_validated_against_impl=s["ran"], evaluations=s["connections"], distinct_nontrivial=s["distinct_nontrivial"], samples=s.get("samples") or [])
+    ctx.take_failures(r, "multitcp")
 
     selftest(ctx, acc)
 
